@@ -1195,9 +1195,9 @@ def run(ctx):
     if gen_ok:
         ctx.prove(extra=["InterpFacts.v"])
     maxlen = ctx.n(8, 14)
-    nseq = ctx.n(260, 2500)
+    nseq = ctx.n(500, 12000)
     seqs = [gen_seq(ctx.rng, maxlen) for _ in range(nseq)]
-    syst = systematic([1, 2] if ctx.quick else [1, 2, 3, 4])
+    syst = systematic([1, 2, 3] if ctx.quick else [1, 2, 3, 4])
     with tempfile.TemporaryDirectory() as tmpdir:
         # (A) differential with the Coq model
         with TagWorld() as world:
@@ -1217,7 +1217,7 @@ def run(ctx):
                                                                                 seq["ops"]))[:500])
                 break
             ctx.count("real_sequences", None, nontrivial=False)
-    float_hazards(ctx, ctx.rng, ctx.n(1500, 20000))
+    float_hazards(ctx, ctx.rng, ctx.n(2000, 60000))
     degenerate_hazard(ctx)
     ctx.cov["rule"] = (
         "a case is an operation sequence (configuration: return dimension 1..4, adaptive flag, "
